@@ -11,7 +11,7 @@ package keeper
 //@ define REQID(r) = types.GenerateRequestID(r)
 
 // A request made at height h with interval n is queued for height h+n under its id (C18).
-//@ func Keeper.RequestRandom
+//@ func Keeper.RequestRandom(ctx, consumer, blockInterval, oracle, serviceFeeCap)
 //@   property C18
 //@   returns request, err
 //@   requires height >= 0 && blockInterval <= 9223372036854775807 - height && time > 0
@@ -20,7 +20,7 @@ package keeper
 //@   ensures made_now: err == nil ==> request.Height == height && request.Consumer == bech(consumer) && request.Oracle == oracle
 //@ end
 
-//@ func Keeper.GetRandom
+//@ func Keeper.GetRandom(ctx, reqID)
 //@   property C18
 //@   returns random, err
 //@   ensures read_back: err == nil ==> has(randoms, reqID) && random == get(randoms, reqID)
@@ -28,7 +28,7 @@ package keeper
 //@ end
 
 // Oracle-seeded requests ask the service module for a seed (foreign keeper, A-MODSEP): no effect on this module's store.
-//@ func Keeper.RequestService
+//@ func Keeper.RequestService(ctx, consumer, serviceFeeCap)
 //@   property C18
 //@   returns id, err
 //@   requires time > 0
@@ -45,7 +45,7 @@ package keeper
 // disappears whether the call succeeded, failed or timed out, at most the random number of that one request is written,
 // and nothing is written for a failed call. (An output body that fails the schema check is the only outcome that keeps
 // the request pending: the service module validates outputs against the same schema before it reports them.)
-//@ func Keeper.HandlerResponse
+//@ func Keeper.HandlerResponse(ctx, requestContextID, responseOutput, err)
 //@   property C18
 //@   requires (len(responseOutput) == 0 ==> err != nil) && time >= 1000000000
 //@   let req0 = get(oracleReqs, requestContextID)
@@ -61,7 +61,7 @@ package keeper
 //@ end
 
 // A state change of the seed request (paused for lack of funds, ...) ends the pending request
-//@ func Keeper.HandlerStateChanged
+//@ func Keeper.HandlerStateChanged(ctx, requestContextID, err)
 //@   property C18
 //@   modifies oracleReqs, bal, supply
 //@   ensures removed_if_known: forall i:Bytes :: i != requestContextID ==> has(oracleReqs, i) == old(has(oracleReqs, i)) && get(oracleReqs, i) == old(get(oracleReqs, i))
@@ -83,7 +83,7 @@ package keeper
 //@ axiom hkeyInj(a, b)
 //@   ensures HKEY(a) == HKEY(b) ==> a == b
 
-//@ func Keeper.IterateRandomRequestQueue
+//@ func Keeper.IterateRandomRequestQueue(ctx, op)
 //@   inline
 //@   invariant #1 pos:    0 <= it_idx && it_idx <= it_n
 //@   invariant #1 frame:  rqueue == old(rqueue)
